@@ -561,3 +561,15 @@ func TestLargeFileNeedsOddINS(t *testing.T) {
 		t.Errorf("P1=80: %X %04X", data, swv)
 	}
 }
+
+func TestRandomSourceExhausted(t *testing.T) {
+	chip, err := New(Config{AppFiles: testFiles(), MRZInfo: testMRZ, EnableBAC: true, Rand: bytes.NewReader([]byte{1, 2, 3})})
+	if err != nil {
+		t.Fatal(err)
+	}
+	expectResp(t, chip, "00A4040C07A0000002471001", "9000")
+	expectResp(t, chip, "0084000008", "6F00")
+	if tr := chip.Truth(); len(tr.InternalErrors) != 1 {
+		t.Errorf("%+v", tr.InternalErrors)
+	}
+}
